@@ -232,7 +232,44 @@ impl Prop for C05 {
             }
         };
         let mut st = SpellStats::default();
-        let (argv, src, owns) = render_full(&case.lay, &case.plan, &case.opts, &mut st);
+        let (mut argv, src, owns) = render_full(&case.lay, &case.plan, &case.opts, &mut st);
+        // a word that begins like a cluster - a declared non-ASCII short flag followed by a letter
+        // nobody declares (`-éqw1`): bpaf reads such an item as one plain word, which must then be
+        // delivered like any other word, and nothing around it may get lost. Only on lines
+        // without `--`, on every other case
+        let mut delivered = case.delivered.clone();
+        if bytes.len() % 2 == 1 && !argv.iter().any(|a| a.as_slice() == b"--") {
+            let (flags, _) = case.level.visible_shorts();
+            let declared: Vec<char> = case
+                .level
+                .body
+                .named_leaves(true)
+                .iter()
+                .flat_map(|l| l.shorts.iter().copied())
+                .collect();
+            let mb = flags.iter().copied().find(|c| !c.is_ascii());
+            let free = ['q', 'z', 'j', 'x'].into_iter().find(|c| !declared.contains(c));
+            let word = case.lay.items.iter().find_map(|i| match &i.kind {
+                LKind::Word(b)
+                    if !b.starts_with(b"-")
+                        && std::str::from_utf8(b).is_ok()
+                        && argv.iter().filter(|a| a == &b).count() == 1
+                        && delivered.iter().filter(|a| a == &b).count() == 1 =>
+                {
+                    Some(b.clone())
+                }
+                _ => None,
+            });
+            if let (Some(m), Some(f), Some(w)) = (mb, free, word) {
+                let new = format!("-{}{}{}", m, f, String::from_utf8_lossy(&w)).into_bytes();
+                for it in argv.iter_mut().chain(delivered.iter_mut()) {
+                    if *it == w {
+                        *it = new.clone();
+                    }
+                }
+                ctx.class("cluster-looking-word");
+            }
+        }
         let out = run(&parser, &argv);
         ctx.eval(1);
         let v = match &out {
@@ -249,14 +286,14 @@ impl Prop for C05 {
         // (a) linearity
         let mut leaves = Vec::new();
         v.leaves(&mut leaves);
-        if !multiset_eq(&leaves, &case.delivered) {
+        if !multiset_eq(&leaves, &delivered) {
             return Verdict::fail(
                 "tokens-dropped-or-duplicated",
                 format!(
                     "{:?} accepted as {}; tokens written {:?}, tokens in the result {:?}",
                     show_argv(&argv),
                     v,
-                    case.delivered.iter().map(|x| show_bytes(x)).collect::<Vec<_>>(),
+                    delivered.iter().map(|x| show_bytes(x)).collect::<Vec<_>>(),
                     leaves.iter().map(|x| show_bytes(x)).collect::<Vec<_>>()
                 ),
             );
